@@ -21,7 +21,7 @@ import vlib
 
 PKG = "internal/client"
 FILES = ["zz_verif_common_test.go", "zz_verif_c04_test.go"]
-UNIVERSES = ["net", "kinds", "set"]
+UNIVERSES = ["net", "kinds", "set", "zone"]
 CHUNK = 4000            # steps per tour segment (bounds the history needed to reproduce)
 _line_re = re.compile(r'^<<"@@([SU])", "(.*)">>$')
 
@@ -179,7 +179,7 @@ def step_list(c, upto=None):
 def make_variants(seed, uni):
     def v(i):
         r = random.Random("%d/%s/%d" % (seed, uni, i))
-        return {"maclen": [6, 8, 20][i % 3], "v6": i % 4 == 3, "seed": r.randrange(1 << 40),
+        return {"maclen": [6, 8, 20][i % 3], "v6": i % 4 == 3 or uni == "zone", "seed": r.randrange(1 << 40),
                 "names": r.randrange(3), "global": r.randrange(16), "w": 4, "maccolon8": False, "nethostbits": False}
     return v
 
@@ -332,7 +332,7 @@ def vacuity(ctx):
     r = ctx.tlc("Clients", "Clients.cov.cfg", workers=2, coverage=True, timeout=600, heap="2g")
     taken = {m.group(1): int(m.group(3)) for m in re.finditer(
         r"^<(\w+) line \d+, col \d+ to line \d+, col \d+ of module Clients[^>]*>: (\d+):(\d+)", r["out"], re.M)}
-    for act in ("Add", "Update", "Remove", "LeaseChange"):
+    for act in ("Add", "Update", "Remove", "LeaseChange", "LoadConfig"):
         if taken.get(act, 0) == 0:
             raise vlib.Inconclusive("vacuous: action %s never taken in Clients.cov.cfg (%s)" % (act, taken))
     return taken
@@ -368,13 +368,13 @@ def run(ctx):
                 e = a[j:j + 7]
                 by_kind[(e[0], e[5])] = by_kind.get((e[0], e[5]), 0) + 1
                 # non-trivial: changes the registry, or is refused because of a clash
-                present = e[0] in (1,) or (e[0] == 2 and g.keys[cur][e[1] - 1] != 0)
+                present = e[0] in (1, 5) or (e[0] == 2 and g.keys[cur][e[1] - 1] != 0)
                 if (e[5] == 0 and e[6] != cur) or (e[5] == 1 and present):
                     nontrivial += 1
                 cur = e[6]
     total_steps = sum(nsteps(c) for c in chunks)
     ctx.log("tours: %d segments, %d steps over %d states" % (len(chunks), total_steps, sum(len(g.keys) for g in graphs)))
-    for want in ((1, 0), (1, 1), (2, 0), (2, 1), (3, 0), (3, 1), (4, 0)):
+    for want in ((1, 0), (1, 1), (2, 0), (2, 1), (3, 0), (3, 1), (4, 0), (5, 0), (5, 1)):
         if by_kind.get(want, 0) == 0:
             raise vlib.Inconclusive("vacuous: no edge with (op, reply) = %s in the tours" % (want,))
     if not ctx.quick and total_steps != sum(g.nedges for g in graphs):
